@@ -253,7 +253,7 @@ private:
 
         for( size_t pixel = 0; pixel < image_size; )
         {
-            targa_offset::type current_byte = this->_io_dev.read_uint8();
+            uint8_t current_byte = this->_io_dev.read_uint8();
 
             if( current_byte & 0x80 ) // run length chunk (high bit = 1)
             {
